@@ -84,6 +84,8 @@ def judge(job, res):
             diff = sorted(k for k in set(run["stat"]) | set(run["before_stat"]) if run["stat"].get(k) != run["before_stat"].get(k))
             v.append(Violation("C04", "dry-run-touched-metadata", f"--dry-run changed mode/mtime/size of {diff}", {"codemod": job["cid"], "argv": job["argv"], "changed": diff}))
         for e in run["trace"]:
+            if e["k"] == "dep_write" and not e["dry"]:
+                v.append(Violation("C04", f"dry-run-dependency-writer-not-dry/{e['store']}", f"DependencyManager.write(dry_run=False) on {os.path.basename(e['path'])} during --dry-run", {"codemod": job["cid"], "argv": job["argv"], "store": e["store"]}))
             if e["k"] == "fs":
                 p = e["path"] if isinstance(e["path"], str) else e["path"][0]
                 if p.startswith(run["proj"] + "/") or p == run["proj"]:
